@@ -66,8 +66,12 @@ VARIABLE st
 
 STDOUT == -1
 STDERR == -2
+\* destinations whose Go type cannot be compared (a struct value holding a slice, a func adapter): set and add
+\* work as for any writer; such a value has no identity, so a remove call that names one finds nothing and
+\* changes nothing - and does not panic (harness/rec.go: writer ids 37..40)
+Uncomparable == 37..40
 
-AllActs == {"Set", "With", "New", "NewDetached", "PkgSetLevel", "SetDefault", "LogF", "LogA", "LogM", "SetAttrsR",
+AllActs == {"Set", "With", "New", "NewDetached", "PkgSetLevel", "SetDefault", "LogF", "LogA", "LogM", "SetAttrsR", "Lookup",
             "Flags", "PkgLevel", "DbgMode", "PkgSkip"}
 
 \* the global flag set (flags.go); StdFlags = LstdFlags.  The harness starts every behaviour from
@@ -135,12 +139,12 @@ ApplyK(c, k, a, b) ==
       [] k = "CtxReset" -> {[c EXCEPT !.ctx = <<>>]}          \* ResetContextKeys
       [] k = "Writer" -> IF a = 0 THEN {c} ELSE {[c EXCEPT !.wn = <<a>>]}
       [] k = "AddWriter" -> IF a = 0 THEN {c} ELSE {[c EXCEPT !.wn = Append(c.wn, a)]}
-      [] k = "RemoveWriter" -> {[c EXCEPT !.wn = RemoveOne(c.wn, a)], [c EXCEPT !.wn = RemoveAllOf(c.wn, a)]}
+      [] k = "RemoveWriter" -> IF a \in Uncomparable THEN {c} ELSE {[c EXCEPT !.wn = RemoveOne(c.wn, a)], [c EXCEPT !.wn = RemoveAllOf(c.wn, a)]}
       [] k = "ErrorWriter" -> IF a = 0 THEN {c} ELSE {[c EXCEPT !.we = <<a>>]}
       [] k = "AddErrorWriter" -> IF a = 0 THEN {c} ELSE {[c EXCEPT !.we = Append(c.we, a)]}
-      [] k = "RemoveErrorWriter" -> {[c EXCEPT !.we = RemoveOne(c.we, a)], [c EXCEPT !.we = RemoveAllOf(c.we, a)]}
+      [] k = "RemoveErrorWriter" -> IF a \in Uncomparable THEN {c} ELSE {[c EXCEPT !.we = RemoveOne(c.we, a)], [c EXCEPT !.we = RemoveAllOf(c.we, a)]}
       [] k = "AddLevelWriter" -> IF a = 0 THEN {c} ELSE {[c EXCEPT !.wl[b] = Append(c.wl[b], a)]}
-      [] k = "RemoveLevelWriter" -> {[c EXCEPT !.wl[b] = RemoveOne(c.wl[b], a)], [c EXCEPT !.wl[b] = RemoveAllOf(c.wl[b], a)]}
+      [] k = "RemoveLevelWriter" -> IF a \in Uncomparable THEN {c} ELSE {[c EXCEPT !.wl[b] = RemoveOne(c.wl[b], a)], [c EXCEPT !.wl[b] = RemoveAllOf(c.wl[b], a)]}
       [] k = "ResetLevelWriter" -> {[c EXCEPT !.wl[b] = <<>>]}
       [] k = "ResetLevelWriters" -> {[c EXCEPT !.wl = NoWL]}
       [] k = "ResetWriters" -> {[c EXCEPT !.wn = <<STDOUT>>, !.we = <<STDERR>>, !.wl = NoWL]}
@@ -218,6 +222,9 @@ Guard(s, e) ==
       [] e.op = "Burn" -> TRUE
       [] e.op = "LogNest" -> e.l \in Live(s) /\ e.a \in Live(s)
       [] e.op = "EachNew" -> e.l \in Live(s) /\ e.a \in Live(s) /\ OptLists[1] = <<>>
+      \* New(l.Name()) on l's parent: every child - named, anonymous, made by With...() - is the direct child of
+      \* that name and must be handed back (nothing is asked of a logger without parent)
+      [] e.op = "Lookup" -> e.l \in Live(s)
       [] e.op = "VrbMode" -> TRUE                  \* the process-wide verbose switch set from outside the library (hedzr/is)
       \* slog.RegisterLevel(v, title, options): RegCalls[e.a]
       [] e.op = "Register" -> e.a \in DOMAIN RegCalls
@@ -288,6 +295,7 @@ Step(s, e) ==
       [] e.op = "BulkKids" -> {[s EXCEPT !.bulk = Append(s.bulk, e.l)]}
       [] e.op = "Burn" -> {s}
       [] e.op = "EachNew" -> Step(s, [op |-> "New", l |-> e.a, k |-> "", a |-> 1, b |-> 0])
+      [] e.op = "Lookup" -> {s}
       [] e.op = "CloseW" -> {[s EXCEPT !.closed = @ \cup {w \in ToSet(Dest(s, e.l, e.a)) : w >= FileBase}]}
       \* a refused registration (value in use, or title in use) changes nothing at all; an accepted
       \* one changes the entries of its own value only
@@ -328,6 +336,7 @@ Ret(s, e, s2) ==
            THEN CHOOSE m \in KidNamed(s, e.l, e.k) : TRUE ELSE s2.n
       [] e.op = "NewDetached" -> s2.n
       [] e.op = "EachNew" -> s2.n
+      [] e.op = "Lookup" -> e.l
       [] e.op = "PkgSkip" ->
            IF e.k = "SetSkip" THEN 0
            ELSE IF KidNamed(s, s.deflog, SkipName(e.a)) # {} THEN CHOOSE m \in KidNamed(s, s.deflog, SkipName(e.a)) : TRUE ELSE s2.n
@@ -508,6 +517,7 @@ HEmit(h, r) == "HEmit" \in Acts /\ r \in {Debug, Info, Warn, Error} /\ Do("HEmit
 BulkKids(l) == "BulkKids" \in Acts /\ Len(st.bulk) < MaxBulk /\ Do("BulkKids", l, "", 0, 0)
 Burn == "Burn" \in Acts /\ Do("Burn", 0, "", 0, 0)
 LogNest(l, m) == "LogNest" \in Acts /\ Do("LogNest", l, "", m, 0)
+Lookup(l) == "Lookup" \in Acts /\ Do("Lookup", l, "", 0, 0)
 EachNew(l, m) == "EachNew" \in Acts /\ st.n < MaxLoggers /\ Do("EachNew", l, "", m, 0)
 CloseW(l, r) == "CloseW" \in Acts /\ Do("CloseW", l, "", r, 0)
 VrbMode(b) == "VrbMode" \in Acts /\ b \in {0, 1} /\ Do("VrbMode", 0, "", b, 0)
@@ -554,6 +564,7 @@ Next ==
     \/ \E l \in 1..MaxLoggers : BulkKids(l)
     \/ Burn
     \/ \E l \in 1..MaxLoggers, m \in 1..MaxLoggers : EachNew(l, m)
+    \/ \E l \in 1..MaxLoggers : Lookup(l)
     \/ \E l \in 1..MaxLoggers, r \in LogSevs : CloseW(l, r)
     \/ \E l \in 1..MaxLoggers, a \in DOMAIN HandlerOpts : MkHandler(l, a)
     \/ \E h \in 1..MaxHandlers, r \in {Debug, Info, Warn, Error} : HEmit(h, r)
